@@ -31,7 +31,7 @@ def prepare(rp, ce, params):
     b = sw(m.get("breadth", 0))
     prefix = "Stack::Push:2;Stack::Push:1;Stack::Repeat:0" if ce.get("in_repeat") else ""
     fields = dict(kind="vm_compute", prefix=prefix, ops=";".join(ops_text(shape)), stack=" ".join(map(str, below + [b])), memory=" ".join(map(str, mem)),
-                  cost=str(m.get("cost", 1)), limit=str(m.get("limit", 2**64 - 1)))
+                  cost=str(1 if ce.get("relax_gas") else m.get("cost", 1)), limit=str(2**64 - 1 if ce.get("relax_gas") else m.get("limit", 2**64 - 1)))
 
     def judge(out):
         if "panic" in out: return True, "real code panics: " + out["panic"][:200]
@@ -44,7 +44,7 @@ def variants(rp, ce, params):
     if sw((ce.get("model") or {}).get("breadth", 1)) == 0:
         # an accepted breadth of 0 leaves the parent ON the Compute op, which then takes the next word as breadth: with a 1 below,
         # the wrong acceptance becomes a successful run where the specification demands an error
-        yield "a word 1 below the breadth", dict(ce, plain_parent=True, one_below=True)
+        yield "a word 1 below the breadth", dict(ce, plain_parent=True, one_below=True, relax_gas=True)
     if trace_val(ce, "depth") == 0 and (trace_val(ce, "rep_depth") or trace_val(ce, "halt0")):
         if trace_val(ce, "rep_depth"):
             yield "parent inside a count-up repeat scope of 2", dict(ce, plain_parent=True, in_repeat=True)
